@@ -13,8 +13,17 @@ FilterCDE(g) == <<None, None, g[3], g[4], g[5], None>>
 RegistryPairs == {<<NameTable[i][1], NameTable[i][2]>> : i \in 1..Len(NameTable)}
 RegistryOK(t) == /\ t.unparsable = 0 /\ t.inverse_ok /\ t.size = Len(NameTable) /\ Len(t.table) = Len(NameTable)
                  /\ {<<t.table[i].cde, t.table[i].name>> : i \in 1..Len(t.table)} = RegistryPairs
+\* growth: the register catalogue OBIS_CODES follows the rules of ObisMap (unit, category, phase from the code), has no duplicates
+\* and covers every measurement the decoders name
+EntryOK(x) == /\ Len(x.cde) = 3 /\ x.a = None /\ x.b = None /\ x.f = None
+              /\ CatalogueDomain(x.cde[1], x.cde[2], x.cde[3])
+              /\ x.unit = UnitOfCode(x.cde[1], x.cde[2]) /\ x.category = CategoryOfCode(x.cde[1], x.cde[2]) /\ x.phase = PhaseOfC(x.cde[1])
+CatalogueOK(t) == /\ \A i \in 1..Len(t.codes) : EntryOK(t.codes[i])
+                  /\ \A i, j \in 1..Len(t.codes) : i # j => t.codes[i].cde # t.codes[j].cde
+                  /\ NamedMeasurements \subseteq {t.codes[i].cde : i \in 1..Len(t.codes)}
 Verdict(t) ==
-  IF t.kind = "registry" THEN (IF RegistryOK(t) THEN Good(t) ELSE [Good(t) EXCEPT !.drift = "obis.registry"])
+  IF t.kind = "catalogue" THEN (IF CatalogueOK(t) THEN Good(t) ELSE [Good(t) EXCEPT !.drift = "obis.catalogue"])
+  ELSE IF t.kind = "registry" THEN (IF RegistryOK(t) THEN Good(t) ELSE [Good(t) EXCEPT !.drift = "obis.registry"])
   ELSE IF t.kind = "parse" THEN
      IF ~WellFormedGroups(t.groups) \/ (t.form = "six" /\ ~AllPresent(t.groups)) THEN Bad(t, "plan")
      ELSE IF t.text # (IF t.form = "six" THEN SixPart(t.groups) ELSE Reduced(t.groups)) THEN Bad(t, "plan")
@@ -27,7 +36,8 @@ Verdict(t) ==
      IF ~WellFormedGroups(t.groups) THEN Bad(t, "plan")
      ELSE IF ~RoundTripDomain(t.groups) THEN Good(t)
      ELSE IF t.raised # "" THEN Bad(t, "C20.roundtrip_raised")
-     ELSE IF t.got # t.groups THEN Bad(t, "C20.roundtrip") ELSE Good(t)
+     ELSE IF t.got # t.groups THEN Bad(t, "C20.roundtrip")
+     ELSE IF t.str_got # t.groups THEN [Good(t) EXCEPT !.drift = "obis.str_roundtrip"] ELSE Good(t)   \* growth: str() parses back as well
   ELSE IF t.kind = "eq" THEN
      IF t.eq # (t.g1 = t.g2) THEN Bad(t, "C20.eq")
      ELSE IF \E i \in 1..Len(t.eqs) : t.eqs[i] # (t.g1 = t.g2) THEN Bad(t, "C20.eq")     \* the same question after hashing / printing / the other way round
